@@ -34,4 +34,23 @@ def replay_io_codec(sp):
                     g = {int(f): int(o) for f, o in zip(np.asarray(got).tolist(), getattr(got, "ori", np.zeros(len(got), dtype=int)).tolist())}
                     if g != want:
                         bad.append(dict(mesh=name, facets=list(sub), flags=ori.tolist(), via=how, loaded=g))
-    return dict(confirmed=bool(bad), observed=bad[:3], required="same facets with the same orientation flags", input=[b["mesh"] for b in bad[:3]])
+    # tag names containing the formats' own key prefixes
+    m = fem.MeshTri().refined(1)
+    interior = np.nonzero(m.f2t[1] != -1)[0]
+    for nb_i, nb_b, ns_s in (("no_slip", "sub_inlet", "glass_pane"), ("o_b_s_", "b_b_", "s_s_o_"), ("wall_o_", "tab_", "gas_")):
+        tag = OrientedBoundary(interior[:2], np.ones(2, dtype=int))
+        mt = m.with_boundaries({nb_i: tag, nb_b: m.boundary_facets()}).with_subdomains({ns_s: np.array([0])})
+        for how in ("dict", "npz"):
+            if how == "dict":
+                mm = type(m).from_dict(json.loads(json.dumps(mt.to_dict())))
+            else:
+                buf = io.BytesIO()
+                mt.save_npz(buf)
+                buf.seek(0)
+                mm = type(m).load_npz(buf)
+            okn = sorted(mm.boundaries or {}) == sorted([nb_i, nb_b]) and sorted(mm.subdomains or {}) == [ns_s]
+            oko = okn and getattr(mm.boundaries[nb_i], "ori", np.zeros(2)).tolist() == [1, 1]
+            if not (okn and oko):
+                bad.append(dict(mesh="MeshTri().refined(1)", names=[nb_i, nb_b, ns_s], via=how, loaded=dict(boundaries=sorted(mm.boundaries or {}), subdomains=sorted(mm.subdomains or {}),
+                                                                                                       ori=getattr((mm.boundaries or {}).get(nb_i), "ori", None))))
+    return dict(confirmed=bool(bad), observed=bad[:3], required="same tag names, same facets with the same orientation flags", input=[b["mesh"] for b in bad[:3]])
